@@ -31,10 +31,15 @@ SQFS_COMPRESSOR compressor_get_default(void)
 
 		ret = sqfs_compressor_create(&cfg, &temp);
 
-		if (ret == 0) {
+		if (ret == 0)
 			sqfs_drop(temp);
+
+		/* only a compressor that is not compiled in is skipped; any
+		   other failure (e.g. out of memory) must not silently select
+		   a different default, it is reported when the compressor is
+		   actually instantiated */
+		if (ret != SQFS_ERROR_UNSUPPORTED)
 			return cmp_ids[i];
-		}
 	}
 
 #ifdef WITH_LZO
